@@ -81,6 +81,7 @@ RetViol(e) ==
   LET x == e.exp
       crashed == Has(e, "panic") \/ Has(e, "hang")
   IN Check("C05", "no-panic-no-hang", ~crashed)
+     \cup Check("C13", "returns-once-its-context-has-expired", ~(Has(e, "hang") /\ Has(e, "ctxMs") /\ e.ctxMs + 1000 <= e.wdogMs))
      \cup Check(x.prop, "returns-value-or-error-not-crash", ~crashed)
      \cup (IF Has(e, "hang") /\ x.outcome = "timed" THEN Check(x.prop, "returns-by-deadline-plus-allowance", FALSE) ELSE {})
      \cup (IF crashed \/ ~Has(e, "err") THEN {}
@@ -134,6 +135,7 @@ NewViol == LET e == Ev IN
   IF e.ev = "tx" /\ incall /\ ~(Has(info, "notx") /\ info.notx) THEN TxViol(e)
   ELSE IF e.ev = "ret" /\ Has(e, "exp") THEN RetViol(e)
   ELSE IF e.ev = "ret" THEN Check("C05", "no-panic-no-hang", ~Has(e, "panic") /\ ~Has(e, "hang"))
+                           \cup Check("C13", "returns-once-its-context-has-expired", ~(Has(e, "hang") /\ Has(e, "ctxMs") /\ e.ctxMs + 1000 <= e.wdogMs))
   ELSE IF e.ev \in {"harnessError", "prefixFailed"} THEN Check("HARNESS", e.ev, FALSE)
   \* results the caller was handed earlier in the script, looked at again after everything that followed: a decoded
   \* response is the caller's own value (C07), and nothing that arrives later may show up in it (C17)
